@@ -73,7 +73,7 @@ def run(ctx):
             break
         r = i % 3
         if r == 0:
-            case = gen_mol.cut_case(rng, share_p=0.0)
+            case = gen_mol.cut_case(rng, share_p=0.0, anno_p=rng.choice([0, 0.3]))
         elif r == 1:
             case = gen_mol.ambiguous_case(rng)
             case['all_atom'] = True
